@@ -1,7 +1,580 @@
-"""Tie B for C15 (placeholder until the property's translator is written): writes an empty
-coq/theories/Gen/GenC15.v so that the project builds."""
+"""Tie B for C15: regenerate coq/theories/Gen/GenC15.v from the CURRENT source of
+pypyr/utils/filesystem.py ($VERIF_REPO, default /repo) - the statement structure of
+
+    is_same_file, move_file, remove_temp_file, move_temp_file,
+    StreamRewriter.in_to_out, ObjectRewriter.in_to_out, FileRewriter.files_in_to_out
+
+as terms of the statement languages of Model/FsRewrite.v ([stm] for the methods that touch the
+file system, [fstm] for the files_in_to_out loop).  Proofs/GenC15Proofs.v proves that these
+terms, run by the semantics of `with` / `try-except` / `raise` / `return` / local flags, are the
+model's op lists and clean-up paths, for every fault assignment.
+
+Fail-closed: a statement or expression outside the subset below makes that definition come out
+as <name>_UNTRANSLATED (reason in a comment), so the lemmas naming it stop compiling.
+
+Dropped (assumed effect-free - trusted base): docstrings, logger.* calls, assignments of
+`self.object_representer.read_mode / write_mode` to a local (only used as an open() mode), the
+`encoding=` / `mode=` keyword arguments, `file_counter += 1`, assignments to names that are read
+only by logging calls, `.mkdir(parents=True, exist_ok=True)` on the out directory (the harness
+only uses existing directories).
+Names are bound by ROLE, not by spelling: in_path / out_path are the 2nd / 3rd parameter, the
+source handle is whatever `with open(in_path ...) as X` binds, the write handle whatever the
+write-mode open / NamedTemporaryFile binds, the flag is the local assigned only True / False,
+the loaded object the local assigned from `...load(<source handle>)`.
+"""
+import ast
+import os
+import sys
 from pathlib import Path
+
+REPO = Path(os.environ.get('VERIF_REPO', '/repo'))
 OUT = Path(__file__).resolve().parent.parent / 'coq' / 'theories' / 'Gen' / 'GenC15.v'
-TEXT = '(* Gen/GenC15.v - placeholder *)\n'
-if not OUT.exists() or OUT.read_text() != TEXT:
-    OUT.write_text(TEXT)
+SRC = 'pypyr/utils/filesystem.py'
+HELPERS = ('move_file', 'remove_temp_file', 'move_temp_file')
+
+
+class Untranslatable(Exception):
+    pass
+
+
+def is_logging(st):
+    return (isinstance(st, ast.Expr) and isinstance(st.value, ast.Call)
+            and isinstance(st.value.func, ast.Attribute)
+            and isinstance(st.value.func.value, ast.Name) and st.value.func.value.id == 'logger')
+
+
+def is_doc(st):
+    return isinstance(st, ast.Expr) and isinstance(st.value, ast.Constant) \
+        and isinstance(st.value.value, str)
+
+
+def is_dead(st):
+    """logging, or an if / for whose whole body is: never changes what the method does"""
+    if is_logging(st) or is_doc(st):
+        return True
+    if isinstance(st, ast.If):
+        return all(is_dead(x) for x in st.body + st.orelse)
+    if isinstance(st, ast.For):
+        return all(is_dead(x) for x in st.body + st.orelse)
+    return False
+
+
+def dotted(e):
+    """a.b.c -> 'a.b.c' (Name / Attribute chains only)"""
+    if isinstance(e, ast.Name):
+        return e.id
+    if isinstance(e, ast.Attribute):
+        b = dotted(e.value)
+        return None if b is None else b + '.' + e.attr
+    return None
+
+
+def find(tree, qual):
+    body, node = tree.body, None
+    for p in qual.split('.'):
+        node = next((n for n in body if isinstance(n, (ast.FunctionDef, ast.ClassDef))
+                     and n.name == p), None)
+        if node is None:
+            raise Untranslatable(f'{qual} not found')
+        body = node.body
+    return node
+
+
+def seq(items):
+    items = [i for i in items if i != 'SSkip']
+    if not items:
+        return 'SSkip'
+    out = items[-1]
+    for i in reversed(items[:-1]):
+        out = f'(SSeq {i} {out})'
+    return out
+
+
+# --------------------------------------------------------------------------- [stm] methods
+
+class Method:
+    """translate one function body into a [stm] term"""
+
+    def __init__(self, fn, is_method):
+        self.fn = fn
+        args = [a.arg for a in fn.args.args]
+        if is_method:
+            if not args or args[0] != 'self':
+                raise Untranslatable('method without self')
+            args = args[1:]
+        self.params = args
+        self.is_method = is_method
+        self.roles = {}            # python name -> role
+        if is_method:
+            if len(args) != 2:
+                raise Untranslatable('in_to_out must take (in_path, out_path)')
+            self.roles[args[0]] = 'in_path'
+            self.roles[args[1]] = 'out_path'
+            d = fn.args.defaults
+            if len(d) != 1 or not (isinstance(d[0], ast.Constant) and d[0].value is None):
+                raise Untranslatable('out_path must default to None')
+        else:
+            for a in args:
+                self.roles[a] = 'param:' + a
+        self.collect_roles()
+
+    # -- roles of locals
+    def collect_roles(self):
+        flag_assign = {}
+        for node in ast.walk(self.fn):
+            if isinstance(node, ast.With):
+                if len(node.items) != 1:
+                    raise Untranslatable('with with several items')
+                it = node.items[0]
+                if not isinstance(it.optional_vars, ast.Name):
+                    raise Untranslatable('with without a simple `as` name')
+                kind = self.with_kind(it.context_expr, prepass=True)
+                role = 'infile' if kind[0] == 'read' else 'outfile'
+                self.bind(it.optional_vars.id, role)
+            if isinstance(node, ast.Assign) and len(node.targets) == 1 \
+                    and isinstance(node.targets[0], ast.Name):
+                nm, v = node.targets[0].id, node.value
+                if isinstance(v, ast.Constant) and isinstance(v.value, bool):
+                    flag_assign.setdefault(nm, []).append(True)
+                elif isinstance(v, ast.Call) and isinstance(v.func, ast.Attribute) \
+                        and v.func.attr == 'load':
+                    self.bind(nm, 'obj')
+                elif dotted(v) in ('self.object_representer.read_mode',):
+                    self.bind(nm, 'read_mode')
+                elif dotted(v) in ('self.object_representer.write_mode',):
+                    self.bind(nm, 'write_mode')
+                else:
+                    flag_assign.setdefault(nm, []).append(False)
+        flags = [n for n, l in flag_assign.items() if all(l) and n not in self.roles]
+        if len(flags) > 1:
+            raise Untranslatable(f'more than one boolean flag: {flags}')
+        for n in flags:
+            self.bind(n, 'flag')
+
+    def bind(self, name, role):
+        if self.roles.get(name, role) != role:
+            raise Untranslatable(f'{name} used as {self.roles[name]} and as {role}')
+        for n, r in self.roles.items():
+            if r == role and n != name and role in ('infile', 'outfile', 'flag', 'obj'):
+                raise Untranslatable(f'two names for role {role}: {n}, {name}')
+        self.roles[name] = role
+
+    def role(self, e):
+        return self.roles.get(e.id) if isinstance(e, ast.Name) else None
+
+    # -- expressions
+    def pexpr(self, e):
+        r = self.role(e)
+        if r == 'in_path':
+            return 'XInPath'
+        if r == 'out_path':
+            return 'XOutPath'
+        if r and r.startswith('param:'):
+            return r[6:]
+        if isinstance(e, ast.Attribute) and e.attr == 'name':
+            r = self.role(e.value)
+            if r == 'infile':
+                return 'XInfileName'
+            if r == 'outfile':
+                return 'XOutfileName'
+        if isinstance(e, ast.Call) and dotted(e.func) == 'os.path.dirname' and len(e.args) == 1 \
+                and not e.keywords and self.role(e.args[0]) == 'in_path':
+            return 'XDirnameIn'
+        raise Untranslatable(f'path expression {ast.unparse(e)}')
+
+    def cond(self, e):
+        if isinstance(e, ast.Call) and dotted(e.func) == 'is_same_file' and not e.keywords \
+                and [self.role(a) for a in e.args] == ['in_path', 'out_path']:
+            return 'CSameFile'
+        r = self.role(e)
+        if r == 'out_path':
+            return 'COutPath'
+        if r == 'flag':
+            return 'CInPlaceFlag'
+        if isinstance(e, ast.Compare) and len(e.ops) == 1 and isinstance(e.ops[0], ast.IsNot) \
+                and self.role(e.left) == 'outfile' \
+                and isinstance(e.comparators[0], ast.Constant) and e.comparators[0].value is None:
+            return 'COutfileNotNone'
+        raise Untranslatable(f'condition {ast.unparse(e)}')
+
+    def with_kind(self, call, prepass=False):
+        """-> ('read'|'write'|'mktemp', coq wkind term)"""
+        if not isinstance(call, ast.Call):
+            raise Untranslatable('with on a non-call')
+        f = dotted(call.func)
+        if f == 'open':
+            if not call.args:
+                raise Untranslatable('open() without a path')
+            mode = call.args[1] if len(call.args) > 1 else \
+                next((k.value for k in call.keywords if k.arg == 'mode'), None)
+            for k in call.keywords:
+                if k.arg not in ('encoding', 'mode'):
+                    raise Untranslatable(f'open(... {k.arg}=)')
+            if len(call.args) > 2:
+                raise Untranslatable('open() with more than two positional arguments')
+            if mode is None:
+                writing = False
+            elif isinstance(mode, ast.Constant) and isinstance(mode.value, str):
+                writing = any(c in mode.value for c in 'wax+')
+            elif self.role(mode) == 'read_mode' or dotted(mode) == 'self.object_representer.read_mode':
+                writing = False
+            elif self.role(mode) == 'write_mode' or dotted(mode) == 'self.object_representer.write_mode':
+                writing = True
+            elif prepass and isinstance(mode, ast.Name):
+                # roles of mode locals may not be known yet: decide by the path argument
+                writing = self.role(call.args[0]) == 'out_path'
+            else:
+                raise Untranslatable(f'open mode {ast.unparse(mode)}')
+            p = None if prepass else self.pexpr(call.args[0])
+            return ('write', f'(WOpenWrite {p})') if writing else ('read', f'(WOpenRead {p})')
+        if f == 'NamedTemporaryFile':
+            if call.args:
+                raise Untranslatable('NamedTemporaryFile with positional arguments')
+            kw = {k.arg: k.value for k in call.keywords}
+            for k in kw:
+                if k not in ('mode', 'dir', 'delete', 'encoding'):
+                    raise Untranslatable(f'NamedTemporaryFile(... {k}=)')
+            if 'dir' not in kw:
+                raise Untranslatable('NamedTemporaryFile without dir= (temp not next to the source)')
+            delete = kw.get('delete', ast.Constant(True))
+            if not (isinstance(delete, ast.Constant) and isinstance(delete.value, bool)):
+                raise Untranslatable('delete= is not a constant')
+            d = None if prepass else self.pexpr(kw['dir'])
+            return ('mktemp', f'(WMkTemp {d} {"true" if delete.value else "false"})')
+        raise Untranslatable(f'with {f}(...)')
+
+    # -- statements
+    def block(self, stmts):
+        return seq([self.stmt(s) for s in stmts])
+
+    def stmt(self, st):
+        if is_doc(st) or is_logging(st):
+            return 'SSkip'
+        if isinstance(st, ast.Assign):
+            if len(st.targets) != 1 or not isinstance(st.targets[0], ast.Name):
+                raise Untranslatable(f'assignment {ast.unparse(st)}')
+            r, v = self.roles.get(st.targets[0].id), st.value
+            if r in ('read_mode', 'write_mode'):
+                return 'SSkip'
+            if r == 'flag' and isinstance(v, ast.Constant) and isinstance(v.value, bool):
+                return f'(SSetInPlace {"true" if v.value else "false"})'
+            if r == 'out_path' and isinstance(v, ast.Constant) and v.value is None:
+                return 'SSetOutNone'
+            if r == 'outfile' and isinstance(v, ast.Constant) and v.value is None:
+                return 'SSetOutfileNone'
+            if r == 'obj' and isinstance(v, ast.Call) and not v.keywords and len(v.args) == 1 \
+                    and dotted(v.func) == 'self.object_representer.load' \
+                    and self.role(v.args[0]) == 'infile':
+                return 'SLoad'
+            raise Untranslatable(f'assignment {ast.unparse(st)}')
+        if isinstance(st, ast.If):
+            return f'(SIf {self.cond(st.test)} {self.block(st.body)} {self.block(st.orelse)})'
+        if isinstance(st, ast.With):
+            it = st.items[0]
+            kind, w = self.with_kind(it.context_expr)
+            b = 'BInfile' if self.roles[it.optional_vars.id] == 'infile' else 'BOutfile'
+            return f'(SWith {w} {b} {self.block(st.body)})'
+        if isinstance(st, ast.Try):
+            if st.orelse or st.finalbody or len(st.handlers) != 1:
+                raise Untranslatable('try with else / finally / several handlers')
+            h = st.handlers[0]
+            if dotted(h.type) != 'Exception':
+                raise Untranslatable(f'except {ast.unparse(h.type) if h.type else ""}')
+            return f'(STry {self.block(st.body)} {self.block(h.body)})'
+        if isinstance(st, ast.Raise):
+            if st.exc is not None or st.cause is not None:
+                raise Untranslatable('raise with an argument')
+            return 'SReraise'
+        if isinstance(st, ast.Return):
+            if self.is_method and st.value is None:
+                return 'SReturn'
+            raise Untranslatable('return with a value')
+        if isinstance(st, ast.Expr) and isinstance(st.value, ast.Call):
+            c = st.value
+            f = dotted(c.func)
+            if f == 'os.replace' and len(c.args) == 2 and not c.keywords:
+                return f'(SReplace {self.pexpr(c.args[0])} {self.pexpr(c.args[1])})'
+            if f == 'os.remove' and len(c.args) == 1 and not c.keywords:
+                return f'(SRemove {self.pexpr(c.args[0])})'
+            if f in HELPERS and not c.keywords:
+                return '(gen_' + f + ''.join(' ' + self.pexpr(a) for a in c.args) + ')'
+            # outfile.writelines(self.formatter(infile))
+            if isinstance(c.func, ast.Attribute) and c.func.attr == 'writelines' \
+                    and self.role(c.func.value) == 'outfile' and len(c.args) == 1 \
+                    and self.is_formatter_of(c.args[0], 'infile'):
+                return 'SWriteItems'
+            # self.object_representer.dump(outfile, self.formatter(obj))
+            if f == 'self.object_representer.dump' and len(c.args) == 2 and not c.keywords \
+                    and self.role(c.args[0]) == 'outfile' and self.is_formatter_of(c.args[1], 'obj'):
+                return 'SWriteItems'
+        raise Untranslatable(f'statement {ast.unparse(st).splitlines()[0]}')
+
+    def is_formatter_of(self, e, role):
+        return isinstance(e, ast.Call) and dotted(e.func) == 'self.formatter' and not e.keywords \
+            and len(e.args) == 1 and self.role(e.args[0]) == role
+
+
+def gen_method(tree, qual, name):
+    try:
+        fn = find(tree, qual)
+        m = Method(fn, is_method='.' in qual)
+        body = m.block(fn.body)
+        params = ''.join(f' ({p} : pexpr)' for p in m.params) if '.' not in qual else ''
+        return f'(* source: {SRC} :: {qual} *)\nDefinition {name}{params} : stm :=\n  {body}.\n'
+    except Untranslatable as e:
+        return f'(* source: {SRC} :: {qual} - NOT TRANSLATED: {e} *)\n' \
+               f'Definition {name}_UNTRANSLATED : unit := tt.\n'
+
+
+# --------------------------------------------------------------------------- is_same_file
+
+def gen_is_same_file(tree):
+    name = 'gen_is_same_file'
+    try:
+        fn = find(tree, 'is_same_file')
+        a = [x.arg for x in fn.args.args]
+        if len(a) != 2:
+            raise Untranslatable('is_same_file must take two paths')
+        body = [s for s in fn.body if not is_doc(s) and not is_logging(s)]
+        if len(body) != 1 or not isinstance(body[0], ast.Return):
+            raise Untranslatable('is_same_file is not a single return')
+
+        def atom(e):
+            if isinstance(e, ast.Name) and e.id in a:
+                return f'truthy{a.index(e.id) + 1}'
+            if isinstance(e, ast.Call) and not e.keywords:
+                f = dotted(e.func)
+                names = [x.id if isinstance(x, ast.Name) else None for x in e.args]
+                if f == 'os.path.isfile' and len(names) == 1 and names[0] in a:
+                    return f'isfile{a.index(names[0]) + 1}'
+                if f == 'os.path.samefile' and sorted(n or '' for n in names) == sorted(a):
+                    return 'samefile'
+            raise Untranslatable(f'is_same_file: {ast.unparse(e)}')
+
+        def bexp(e):
+            if isinstance(e, ast.BoolOp):
+                op = 'andb' if isinstance(e.op, ast.And) else 'orb'
+                vals = [bexp(v) for v in e.values]
+                out = vals[-1]
+                for v in reversed(vals[:-1]):
+                    out = f'({op} {v} {out})'
+                return out
+            if isinstance(e, ast.UnaryOp) and isinstance(e.op, ast.Not):
+                return f'(negb {bexp(e.operand)})'
+            return atom(e)
+        return (f'(* source: {SRC} :: is_same_file *)\n'
+                f'Definition {name} (truthy1 truthy2 isfile1 isfile2 samefile : bool) : bool :=\n'
+                f'  {bexp(body[0].value)}.\n')
+    except Untranslatable as e:
+        return f'(* source: {SRC} :: is_same_file - NOT TRANSLATED: {e} *)\n' \
+               f'Definition {name}_UNTRANSLATED : unit := tt.\n'
+
+
+# --------------------------------------------------------------------------- files_in_to_out
+
+class Loop:
+    """FileRewriter.files_in_to_out -> [fstm]"""
+
+    def __init__(self, fn):
+        self.fn = fn
+        a = [x.arg for x in fn.args.args]
+        if len(a) != 3 or a[0] != 'self':
+            raise Untranslatable('files_in_to_out must take (self, in_path, out_path)')
+        self.in_arg, self.out_arg = a[1], a[2]
+        self.roles = {}
+        self.live = self.live_names()
+        self.collect()
+
+    def live_names(self):
+        live = set()
+
+        def visit(node):
+            if isinstance(node, ast.stmt) and is_dead(node):
+                return
+            if isinstance(node, ast.AugAssign):
+                return
+            if isinstance(node, ast.Name) and isinstance(node.ctx, ast.Load):
+                live.add(node.id)
+            for ch in ast.iter_child_nodes(node):
+                visit(ch)
+        for st in self.fn.body:
+            visit(st)
+        return live
+
+    def collect(self):
+        for node in ast.walk(self.fn):
+            if isinstance(node, ast.Assign) and len(node.targets) == 1 \
+                    and isinstance(node.targets[0], ast.Name):
+                nm, v = node.targets[0].id, node.value
+                if isinstance(v, ast.Call) and dotted(v.func) == 'get_glob' and len(v.args) == 1 \
+                        and isinstance(v.args[0], ast.Name) and v.args[0].id == self.in_arg:
+                    self.roles[nm] = 'in_paths'
+                elif isinstance(v, ast.Call) and dotted(v.func) == 'Path' and len(v.args) == 1 \
+                        and isinstance(v.args[0], ast.Name):
+                    self.roles[nm] = 'pathlib_out' if v.args[0].id == self.out_arg else 'actual_in'
+            if isinstance(node, ast.For) and isinstance(node.target, ast.Name):
+                self.roles[node.target.id] = 'path'
+
+    def role(self, e):
+        return self.roles.get(e.id) if isinstance(e, ast.Name) else None
+
+    def fexpr(self, e):
+        if isinstance(e, ast.Constant):
+            if e.value is None:
+                return 'FNone'
+            if isinstance(e.value, bool):
+                return f'(FBool {"true" if e.value else "false"})'
+        r = self.role(e)
+        if r == 'pathlib_out':
+            return 'FPathOut'
+        if isinstance(e, ast.Name) and e.id in self.vars:
+            return f'(FVar {self.vars[e.id]})'
+        if isinstance(e, ast.Attribute) and e.attr == 'parent' and self.role(e.value) == 'pathlib_out':
+            return 'FOutParent'
+        if isinstance(e, ast.Call) and isinstance(e.func, ast.Attribute) and e.func.attr == 'joinpath' \
+                and len(e.args) == 1 and not e.keywords \
+                and isinstance(e.args[0], ast.Attribute) and e.args[0].attr == 'name' \
+                and self.role(e.args[0].value) == 'actual_in':
+            return f'(FJoinName {self.fexpr(e.func.value)})'
+        raise Untranslatable(f'expression {ast.unparse(e)}')
+
+    def fcond(self, e):
+        r = self.role(e)
+        if r == 'in_paths':
+            return 'FCInPaths'
+        if isinstance(e, ast.Name) and e.id == self.out_arg:
+            return 'FCOutPath'
+        if isinstance(e, ast.Name) and e.id in self.vars:
+            return f'(FCVar {self.vars[e.id]})'
+        if isinstance(e, ast.Call):
+            f = dotted(e.func)
+            if f in ('FileRewriter.is_str_dir', 'self.is_str_dir') and len(e.args) == 1 \
+                    and isinstance(e.args[0], ast.Name) and e.args[0].id == self.out_arg:
+                return 'FCIsStrDir'
+            if isinstance(e.func, ast.Attribute) and not e.args and not e.keywords:
+                if e.func.attr == 'is_dir' and self.role(e.func.value) == 'pathlib_out':
+                    return 'FCIsDir'
+                if e.func.attr == 'is_file' and self.role(e.func.value) == 'actual_in':
+                    return 'FCIsFile'
+        if isinstance(e, ast.Compare) and len(e.ops) == 1 and isinstance(e.ops[0], ast.Gt) \
+                and isinstance(e.left, ast.Call) and dotted(e.left.func) == 'len' \
+                and len(e.left.args) == 1 and self.role(e.left.args[0]) == 'in_paths' \
+                and isinstance(e.comparators[0], ast.Constant) and e.comparators[0].value == 1:
+            return 'FCManyPaths'
+        raise Untranslatable(f'condition {ast.unparse(e)}')
+
+    VARS = {'basedir': 'VBasedir', 'known': 'VKnown', 'actual_out': 'VActualOut'}
+
+    def assign_vars(self):
+        """the three live locals, by the shape of what is assigned to them"""
+        self.vars = {}
+        for node in ast.walk(self.fn):
+            if isinstance(node, ast.Assign) and len(node.targets) == 1 \
+                    and isinstance(node.targets[0], ast.Name):
+                nm, v = node.targets[0].id, node.value
+                if nm in self.roles or nm not in self.live:
+                    continue
+                if isinstance(v, ast.Constant) and isinstance(v.value, bool):
+                    kind = 'VKnown'
+                elif isinstance(v, ast.Call) and isinstance(v.func, ast.Attribute) \
+                        and v.func.attr == 'joinpath':
+                    kind = 'VActualOut'
+                elif isinstance(v, ast.Constant) and v.value is None:
+                    kind = 'VBasedir'
+                else:
+                    continue
+                if self.vars.get(nm, kind) != kind:
+                    raise Untranslatable(f'local {nm} used in two roles')
+                self.vars[nm] = kind
+        inv = {}
+        for n, k in self.vars.items():
+            if k in inv:
+                raise Untranslatable(f'two locals in role {k}: {inv[k]}, {n}')
+            inv[k] = n
+
+    def block(self, stmts):
+        items = [self.stmt(s) for s in stmts]
+        items = [i for i in items if i != 'FSkip']
+        if not items:
+            return 'FSkip'
+        out = items[-1]
+        for i in reversed(items[:-1]):
+            out = f'(FSeq {i} {out})'
+        return out
+
+    def stmt(self, st):
+        if is_dead(st):
+            return 'FSkip'
+        if isinstance(st, ast.AugAssign) and isinstance(st.target, ast.Name) \
+                and st.target.id not in self.live:
+            return 'FSkip'
+        if isinstance(st, ast.Assign) and len(st.targets) == 1 and isinstance(st.targets[0], ast.Name):
+            nm = st.targets[0].id
+            if nm in self.roles:
+                return 'FSkip'          # in_paths / pathlib_out / actual_in: bound by role
+            if nm not in self.live:
+                return 'FSkip'          # read by logging only
+            if nm in self.vars:
+                return f'(FAssign {self.vars[nm]} {self.fexpr(st.value)})'
+            raise Untranslatable(f'assignment {ast.unparse(st)}')
+        if isinstance(st, ast.If):
+            return f'(FIf {self.fcond(st.test)} {self.block(st.body)} {self.block(st.orelse)})'
+        if isinstance(st, ast.For):
+            if st.orelse or self.role(st.iter) != 'in_paths':
+                raise Untranslatable('for loop not over the glob result')
+            return f'(FFor {self.block(st.body)})'
+        if isinstance(st, ast.Raise):
+            if isinstance(st.exc, ast.Call) and dotted(st.exc.func) == 'Error':
+                return 'FRaiseError'
+            raise Untranslatable('raise of something else than Error(...)')
+        if isinstance(st, ast.Expr) and isinstance(st.value, ast.Call):
+            c = st.value
+            if isinstance(c.func, ast.Attribute) and c.func.attr == 'mkdir':
+                return 'FSkip'
+            if dotted(c.func) == 'self.in_to_out' and not c.args:
+                kw = {k.arg: k.value for k in c.keywords}
+                if set(kw) == {'in_path'} and self.role(kw['in_path']) == 'actual_in':
+                    return '(FCall None)'
+                if set(kw) == {'in_path', 'out_path'} and self.role(kw['in_path']) == 'actual_in':
+                    return f'(FCall (Some {self.fexpr(kw["out_path"])}))'
+        raise Untranslatable(f'statement {ast.unparse(st).splitlines()[0]}')
+
+
+def gen_loop(tree):
+    name = 'gen_files_in_to_out'
+    qual = 'FileRewriter.files_in_to_out'
+    try:
+        fn = find(tree, qual)
+        lp = Loop(fn)
+        lp.assign_vars()
+        return f'(* source: {SRC} :: {qual} *)\nDefinition {name} : fstm :=\n  {lp.block(fn.body)}.\n'
+    except Untranslatable as e:
+        return f'(* source: {SRC} :: {qual} - NOT TRANSLATED: {e} *)\n' \
+               f'Definition {name}_UNTRANSLATED : unit := tt.\n'
+
+
+def main():
+    head = ('(** Gen/GenC15.v - GENERATED by tools/py2coq_c15.py from the current source under the\n'
+            '    repository; do not edit.  See the translator for the (fail-closed) subset and what it\n'
+            '    drops. *)\n'
+            'From PV Require Import FsRewrite.\n'
+            'Open Scope string_scope.\n\n')
+    try:
+        tree = ast.parse((REPO / SRC).read_text())
+    except (OSError, SyntaxError) as e:
+        text = head + f'(* cannot read {SRC}: {e} *)\nDefinition gen_c15_UNTRANSLATED : unit := tt.\n'
+    else:
+        parts = [gen_is_same_file(tree),
+                 gen_method(tree, 'move_file', 'gen_move_file'),
+                 gen_method(tree, 'remove_temp_file', 'gen_remove_temp_file'),
+                 gen_method(tree, 'move_temp_file', 'gen_move_temp_file'),
+                 gen_method(tree, 'StreamRewriter.in_to_out', 'gen_stream_in_to_out'),
+                 gen_method(tree, 'ObjectRewriter.in_to_out', 'gen_object_in_to_out'),
+                 gen_loop(tree)]
+        text = head + '\n'.join(parts)
+    if not OUT.exists() or OUT.read_text() != text:
+        OUT.write_text(text)
+
+
+if __name__ == '__main__':
+    main()
